@@ -9,12 +9,27 @@ pub struct Rat {
     pub n: i128,
     pub d: i128,
 }
+thread_local! {
+    /// set when an exact computation left the i128 range; callers must then discard the case
+    pub static RAT_OVERFLOW: std::cell::Cell<bool> = const { std::cell::Cell::new(false) };
+}
+pub fn rat_overflowed() -> bool {
+    RAT_OVERFLOW.with(|f| f.get())
+}
+pub fn rat_reset() {
+    RAT_OVERFLOW.with(|f| f.set(false))
+}
+fn ovf() -> Rat {
+    RAT_OVERFLOW.with(|f| f.set(true));
+    Rat { n: 0, d: 1 }
+}
+
 impl Rat {
     pub fn new(n: i128, d: i128) -> Rat {
         assert!(d != 0);
         let g = gcd(n, d).max(1);
         let s = if d < 0 { -1 } else { 1 };
-        Rat { n: s * n / g, d: s * d / g }
+        Rat { n: s * (n / g), d: s * (d / g) }
     }
     pub fn int(n: i128) -> Rat {
         Rat { n, d: 1 }
@@ -22,26 +37,47 @@ impl Rat {
     pub fn zero() -> Rat {
         Rat::int(0)
     }
+    fn lin(self, o: Rat, sign: i128) -> Rat {
+        // self + sign * o over the lcm-free common denominator, checked
+        let g = gcd(self.d, o.d).max(1);
+        let (a, b) = (o.d / g, self.d / g);
+        match (self.n.checked_mul(a), o.n.checked_mul(b), self.d.checked_mul(a)) {
+            (Some(x), Some(y), Some(dd)) => match x.checked_add(sign * y) {
+                Some(nn) => Rat::new(nn, dd),
+                None => ovf(),
+            },
+            _ => ovf(),
+        }
+    }
     pub fn add(self, o: Rat) -> Rat {
-        Rat::new(self.n * o.d + o.n * self.d, self.d * o.d)
+        self.lin(o, 1)
     }
     pub fn sub(self, o: Rat) -> Rat {
-        Rat::new(self.n * o.d - o.n * self.d, self.d * o.d)
+        self.lin(o, -1)
     }
     pub fn mul(self, o: Rat) -> Rat {
-        Rat::new(self.n * o.n, self.d * o.d)
+        // cross-reduce first
+        let g1 = gcd(self.n, o.d).max(1);
+        let g2 = gcd(o.n, self.d).max(1);
+        match ((self.n / g1).checked_mul(o.n / g2), (self.d / g2).checked_mul(o.d / g1)) {
+            (Some(nn), Some(dd)) => Rat::new(nn, dd),
+            _ => ovf(),
+        }
     }
     pub fn div(self, o: Rat) -> Rat {
-        Rat::new(self.n * o.d, self.d * o.n)
+        if o.n == 0 {
+            return ovf();
+        }
+        self.mul(Rat::new(o.d, o.n))
     }
     pub fn is_zero(self) -> bool {
         self.n == 0
     }
     pub fn lt(self, o: Rat) -> bool {
-        self.n * o.d < o.n * self.d
+        self.sub(o).n < 0
     }
     pub fn le(self, o: Rat) -> bool {
-        self.n * o.d <= o.n * self.d
+        self.sub(o).n <= 0
     }
     pub fn f(self) -> f64 {
         self.n as f64 / self.d as f64
